@@ -56,8 +56,10 @@ static const struct cfg thorough_cfgs[] = {
 };
 static int NO;
 static int w_nconfigs(int thorough) { return thorough ? (int)(sizeof thorough_cfgs / sizeof thorough_cfgs[0]) : (int)(sizeof quick_cfgs / sizeof quick_cfgs[0]); }
+static int USE_MACRO;      /* odd configurations build the array objects with CSTL_ARRAY_INITIALIZER instead of cstl_array_init() */
 static void w_setup(int cfg, int thorough)
 {
+    USE_MACRO = cfg & 1;
     int a, s, n, b, e;
     const struct cfg *c = thorough ? &thorough_cfgs[cfg] : &quick_cfgs[cfg];
     SZ_INT = c->si; SZ_EXT = c->se; NO = c->nobj;
@@ -81,7 +83,7 @@ static void w_init(void)
     shim_reset();
     memset(EXT, 0xEE, sizeof EXT);
     nB = 0; memset(B, 0, sizeof B);
-    for (a = 0; a < NO; a++) { memset(&A[a], 0xA5, sizeof A[a]); cstl_array_init(&A[a]); O[a].buf = -1; O[a].off = O[a].len = 0; }
+    for (a = 0; a < NO; a++) { memset(&A[a], 0xA5, sizeof A[a]); if (USE_MACRO) A[a] = (cstl_array_t)CSTL_ARRAY_INITIALIZER(A[a]); else cstl_array_init(&A[a]); O[a].buf = -1; O[a].off = O[a].len = 0; }
 }
 
 static size_t nmval(int n, size_t sz)
